@@ -69,6 +69,9 @@ pub struct WorldCfg {
     #[serde(with = "crate::util::u128s")]
     pub poor_balance: u128,
     pub whitelist_whale: bool,
+    /// also deploy an unregistered vAMM whose decimals differ from the engine's
+    #[serde(default)]
+    pub alien: bool,
 }
 
 impl WorldCfg {
@@ -103,6 +106,7 @@ impl WorldCfg {
             trader_balance: 1_000_000 * d,
             poor_balance: 3 * d,
             whitelist_whale: false,
+            alien: false,
         }
     }
 }
@@ -151,6 +155,7 @@ pub struct World {
     pub paused: bool,
     /// last price the harness submitted to each vAMM's oracle
     pub oracle_model: Vec<u128>,
+    pub alien_vamm: Option<Addr>,
 }
 
 fn c_cw20() -> Box<dyn Contract<Empty>> {
@@ -506,6 +511,37 @@ impl World {
             oracles.push(oracle);
             keys.push(key);
         }
+        let alien_vamm = if cfg.alien {
+            let dec = if cfg.decimals == 6 { 7 } else { 6 };
+            let da = 10u128.pow(dec as u32);
+            let a = app
+                .instantiate_contract(
+                    vamm_code,
+                    o.clone(),
+                    &vamm::InstantiateMsg {
+                        decimals: dec,
+                        pricefeed: oracles[0].to_string(),
+                        margin_engine: Some(engine.to_string()),
+                        insurance_fund: Some(fund_addr.to_string()),
+                        quote_asset: "USD".into(),
+                        base_asset: "DOT".into(),
+                        quote_asset_reserve: u(1000 * da),
+                        base_asset_reserve: u(100 * da),
+                        funding_period: 3600,
+                        toll_ratio: u(0),
+                        spread_ratio: u(0),
+                        fluctuation_limit_ratio: u(0),
+                    },
+                    &[],
+                    "alien_vamm",
+                    None,
+                )
+                .map_err(e)?;
+            app.execute_contract(o.clone(), a.clone(), &vamm::ExecuteMsg::SetOpen { open: true }, &[]).map_err(e)?;
+            Some(a)
+        } else {
+            None
+        };
         // allowances
         if let Some(t) = &token {
             for (i, tr) in traders.iter().enumerate() {
@@ -572,6 +608,7 @@ impl World {
             mock_feed_code,
             paused: false,
             oracle_model: cfg.vamms.iter().map(|v| v.oracle_price).collect(),
+            alien_vamm,
         };
         // a deployment is used from the block after its creation (see DESIGN C15)
         w.next_block(15, 1);
